@@ -172,6 +172,10 @@ def programs(rng, tier):
         vs = ["L"] + [str(x) for x in xs]
         P.add([rng.choice(["mk_sat_exactly", "mk_sat_upto"]), str(nv), str(k), vs])
     # a listed variable outside the set: outside the quantifier, recorded only
+    # thresholds far above the list length, around the u16 boundary (the library iterates k rounds: keep these few)
+    for k in ((65535, 65536, 65537) if tier == "quick" else (65535, 65536, 65537, 65538, 131072, 131073, 70000)):
+        P.add(["mk_sat_upto", "3", str(k), ["L", "0", "2"]])
+        P.add(["mk_sat_exactly", "3", str(k), ["L", "1"]])
     P.add(["mk_sat_exactly", "3", "1", ["L", "0", "3"]])
     P.add(["mk_sat_upto", "3", "1", ["L", "5"]])
     return P.progs
